@@ -266,6 +266,23 @@ static void scn_merge(const Scn &s, Result &r) {
   if (fail_at > 0 && mc.calls >= fail_at) r.tag("merge_callback_failed");
   if (!its.empty()) r.tag("iterator_abandoned_before_drained");
   for (auto &it : its) mtbl_iter_destroy(&it);
+  // mtbl_source_write into a writer: one that takes everything (s.p[6] odd) or one that already holds a key above all of
+  // the merger's, so that the very first entry is refused and the call reports failure - the iterator mtbl_source_write
+  // made for itself has to go either way
+  if (P(s, 6) >= 2) {
+    int wfd = new_memfd("vf-c18-sw");
+    struct mtbl_writer *w = mtbl_writer_init_fd(wfd, nullptr);
+    bool refuse = P(s, 6) % 2 == 0;
+    if (refuse) {
+      bytes top(4, (char)0xff);
+      (void)mtbl_writer_add(w, U(top), top.size(), U(top), 1);
+    }
+    mtbl_res wr = mtbl_source_write(mtbl_merger_source(mg), w);
+    if (wr != mtbl_res_success) r.tag("call_reported_failure");
+    r.tag(refuse ? "source_write_into_refusing_writer" : "source_write");
+    mtbl_writer_destroy(&w);
+    close(wfd);
+  }
   mtbl_merger_destroy(&mg);
 }
 
